@@ -327,8 +327,76 @@ macro_rules! sem_seq {
     };
 }
 sem_seq!(Vec);
-sem_seq!(VecDeque);
 sem_seq!(LinkedList);
+
+/// A `VecDeque` has hidden layout state (where the ring buffer starts, whether it has
+/// wrapped), so its values are produced by an operation history, not by `collect()`:
+/// rotations through push_back/pop_front, pushes at both ends, explicit rotate_left.
+impl<T: Sem + CanonicalSerialize + CanonicalDeserialize> Sem for VecDeque<T> {
+    const CANONICAL: bool = T::CANONICAL;
+    fn gen(g: &mut G<'_>) -> Self {
+        let n = g.len();
+        match g.rng.below(4) {
+            0 => (0..n).map(|_| T::gen(g)).collect(),
+            1 => {
+                // advance the head, then fill: the contents wrap around the end of the buffer
+                let mut d = VecDeque::with_capacity(n.max(1));
+                let cap = d.capacity();
+                let shift = if cap > 1 { g.rng.range(1, cap - 1) } else { 0 };
+                for _ in 0..shift {
+                    d.push_back(T::gen(g));
+                }
+                for _ in 0..shift {
+                    d.pop_front();
+                }
+                for _ in 0..n {
+                    d.push_back(T::gen(g));
+                }
+                d
+            },
+            2 => {
+                let mut d = VecDeque::new();
+                for _ in 0..n {
+                    if g.rng.chance(1, 2) {
+                        d.push_front(T::gen(g));
+                    } else {
+                        d.push_back(T::gen(g));
+                    }
+                }
+                d
+            },
+            _ => {
+                let mut d: VecDeque<T> = (0..n).map(|_| T::gen(g)).collect();
+                if n > 1 {
+                    let k = g.rng.range(1, n - 1);
+                    d.rotate_left(k);
+                    d.push_front(T::gen(g));
+                }
+                d
+            },
+        }
+    }
+    fn same(&self, o: &Self) -> bool {
+        self.len() == o.len() && self.iter().zip(o.iter()).all(|(a, b)| a.same(b))
+    }
+    fn ref_valid(&self, v: bool) -> bool {
+        self.iter().all(|x| x.ref_valid(v))
+    }
+    fn show(&self) -> String {
+        let (a, b) = self.as_slices();
+        let s = format!("{:?} (ring buffer slices of {} + {})", self, a.len(), b.len());
+        if s.len() > 260 {
+            let mut e = 240;
+            while !s.is_char_boundary(e) {
+                e -= 1;
+            }
+            format!("{}…(+{} chars; slices {} + {})", &s[..e], s.len() - e, a.len(), b.len())
+        } else {
+            s
+        }
+    }
+    std_io!();
+}
 
 impl<T: Sem + Ord + CanonicalSerialize + CanonicalDeserialize> Sem for BTreeSet<T> {
     fn gen(g: &mut G<'_>) -> Self {
